@@ -34,9 +34,14 @@ def run(ctx):
     ctx.touch(f)
     pushes = [bb for bb, t in f.calls() if re.search(r"VecDeque::<T(, A)?>::push_back$", call_name(t))]
     starts = f.call_blocks(lambda t: call_is(t, add_thread.id))
-    ctx.require(pushes and starts, "C08.1: spawn has no enqueue/start-thread alternative (push_back=%d add_thread=%d)" % (len(pushes), len(starts)))
+    ctx.require(starts or pushes, "C08.1: spawn neither enqueues nor starts a thread")
+    if not pushes:
+        ctx.ob("C08.1", "%s|promise-accounting" % f.id, "spawn never queues a connection for an idle worker (always a new thread): no promise to account for", True, "%s:%d" % (f.file, f.line), nontrivial=False)
+    if not starts:
+        ctx.ob("C08.1", "%s|promise-accounting" % f.id, "spawn can start a new worker when no idle one is available", False, "%s:%d" % (f.file, f.line), "spawn only ever queues: with every worker busy a new connection waits for another one to end")
+    skip_c081 = not (pushes and starts)
     deciding = []
-    for bb in sorted(f.live_blocks()):
+    for bb in ([] if skip_c081 else sorted(f.live_blocks())):
         if f.term(bb)["t"] != "switch" or f.blocks[bb]["cleanup"]:
             continue
         succ = f.succs(bb, False)
@@ -45,7 +50,7 @@ def run(ctx):
         can_start = [bool(r & set(starts)) for r in reach]
         if any(can_push) and any(can_start) and (can_push != can_start or not all(can_push)):
             deciding.append(bb)
-    ctx.require(deciding, "C08.1: deciding branch of spawn not found")
+    ctx.require(deciding or skip_c081, "C08.1: deciding branch of spawn not found")
     reads_idle = reads_queue = False
     for bb in deciding:
         o = f.origin(f.term(bb)["discr"])
@@ -62,7 +67,8 @@ def run(ctx):
             if t["t"] == "call" and re.search(r"atomic::Atomic(::<usize>|Usize)::fetch_sub$", call_name(t)) and "waiting_tasks" in arg_origin_fields(f, t):
                 claims = True
     ok = reads_idle and (reads_queue or claims)
-    ctx.ob("C08.1", "%s|promise-accounting" % f.id,
+    if not skip_c081:
+      ctx.ob("C08.1", "%s|promise-accounting" % f.id,
            "the decision to queue a connection for an idle worker accounts for the connections already queued (each parked worker is promised to at most one task)",
            ok, f.loc(deciding[0]), None if ok else "deciding condition reads idle-counter=%s queued-count=%s claim-on-enqueue=%s: a burst of connections is queued for the same idle worker and the rest starve until another connection ends" % (reads_idle, reads_queue, claims))
     # facts the argument relies on: the idle counter is only changed by the worker's Registration guard
@@ -213,7 +219,7 @@ def run(ctx):
         ctx.ob("C08.4", "%s|retire-only-after-timeout" % w.id, "the exit test is reached only when the wait timed out (a notified worker always goes back to the queue)", okr, w.loc(bb), detail if not okr else None)
 
     # ---- C08.5 blocking receives exist only in the per-connection turn taking
-    allowed_recv = {method(facts, T_WRITE, SW, "write").id, method(facts, T_WRITE, SW, "flush").id,
+    allowed_recv = {method(facts, T_WRITE, SW, "write").id, method(facts, T_WRITE, SW, "flush").id, method(facts, T_DROP, SW, "drop").id,
                     method(facts, T_READ, SR, "read").id, method(facts, T_DROP, SR, "drop").id}
     n = 0
     for g, bb, t in facts.all_calls(lambda t: call_is(t, RECV, "std::sync::mpsc::Receiver::<T>::recv_timeout") or call_matches(t, r"std::sync::mpsc::(Iter|IntoIter)<.*> as std::iter::Iterator>::next$")):
